@@ -26,6 +26,7 @@ type Profile struct {
 	Scan        bool // C05 marker scan
 	KEKOutage   bool // C05
 	RuleChanges bool // C01/C08: a caller's grants change between requests (same address)
+	DiskFaults  bool // C04 (concurrent engine): the disk is full during chosen steps
 	LaxModes    bool // C03: the file may have been given a lax mode by an operator before a reopen
 	CondHeavy   bool // C09
 	FileClient  bool // C09: judge FileClient on a file generated from the model
